@@ -230,6 +230,9 @@ theorem Lines.suspend {w a : World} (h : Lines w a) (pc : Pc) : Lines w (a.suspe
 
 theorem Lines.handleDisconnect {w a : World} (h : Lines w a) : Lines w a.handleDisconnect := h.of_eq rfl
 
+theorem Lines.failStep {w a : World} (h : Lines w a) (ctx : StepCtx) (st : Outbound.Step) : Lines w (a.failStep ctx st) :=
+  h.of_eq (failStep_out a ctx st)
+
 theorem Lines.discFail {w a : World} (h : Lines w a) (ctx : StepCtx) : Lines w (a.discFail ctx) :=
   h.of_eq (discFail_out a ctx)
 
